@@ -113,6 +113,26 @@ def j7(rep):
     rep.floor("calls returning a Java fragment", total, 1000)
 
 
+def j5b(rep):
+    """Runtime methods whose body is one return expression (and therefore readable by J5 / by inspection) stay that way."""
+    import json
+    want = json.load(open(os.path.join(os.path.dirname(__file__), "frozen", "c12_single_return_methods.json")))
+    n = 0
+    for cls, names in sorted(want.items()):
+        path = os.path.join(common.JAVA_RT, cls + ".java")
+        if not os.path.exists(path):
+            raise AnalysisBroken("Java runtime class %s.java disappeared" % cls)
+        have = javaexpr.single_return_methods(path)
+        got = set("%s/%d" % (k, len(b[0])) for k, bs in have.items() for b in bs)
+        for nm in names:
+            n += 1
+            if nm not in got:
+                raise AnalysisBroken("foamj.%s.%s used to be a single `return e;` and is now a multi-statement body: the rules of C12 "
+                                     "cannot tell whether it still computes what the interpreter computes (re-confirm by hand and update "
+                                     "frozen/c12_single_return_methods.json)" % (cls, nm))
+    rep.ok("J5", "single-return-methods-unchanged-in-shape", sample={"methods": n})
+
+
 def j8(rep):
     """Parenthesisation of generated Java expressions is sound."""
     from . import prectab
@@ -464,6 +484,7 @@ def run(tier, only=None):
     c16_mangle.check_mangle_table(rep, "J6", jrows, "genjava.c", "gjSpecCharIdTable")
     rep.assumptions += ["Java's int carries FOAM SInt by design: word-size dependent limits are compared by kind, not value",
                         "java.lang/java.math methods mean what their javadoc says (table JAVA_METHOD_MEANS)"]
+    j5b(rep)
     j7(rep)
     j8(rep)
     return rep
